@@ -221,12 +221,16 @@ def with_refs(doc, rng):
     return d if used else None
 
 
+class Spelled(dict):
+    """the same document, handed to the library as another text of the same JSON value (strings written with escapes)"""
+
+
 def run_docs(docs):
     with tempfile.TemporaryDirectory(dir=os.path.join(here, "..", ".work")) as td:
         inp, outp = os.path.join(td, "in.jsonl"), os.path.join(td, "out.jsonl")
         with open(inp, "w") as f:
             for d in docs:
-                f.write(json.dumps({"doc": d}) + "\n")
+                f.write(json.dumps({"doc": d, "spell": isinstance(d, Spelled)}) + "\n")
         subprocess.run([a.harness, "apply", "c19", inp, outp], check=True, timeout=1800)
         return [json.loads(l) for l in open(outp)]
 
@@ -265,13 +269,15 @@ def check(docs):
             per_shape.setdefault(shape, 0)
             if per_shape[shape] < 1:
                 per_shape[shape] += 1
-                res["failures"].append({"property": "C19", "what": what, "shape": shape, "input": {"doc": d}, "observed": path})
+                res["failures"].append({"property": "C19", "what": what + (" (document written with string escapes)" if isinstance(d, Spelled) else ""),
+                                        "shape": shape, "input": {"doc": d, "spell": isinstance(d, Spelled)}, "observed": path})
     res["samples"] = [{"doc": docs[0]}] if docs else []
     return res
 
 
 if a.replay:
-    doc = json.load(open(a.replay))["input"]["doc"]
+    inp = json.load(open(a.replay))["input"]
+    doc = Spelled(inp["doc"]) if inp.get("spell") else inp["doc"]
     r = check([doc])
     json.dump(r, open(a.out, "w"), indent=1)
     sys.exit(1 if r["failures"] else 0)
@@ -290,5 +296,7 @@ with tempfile.TemporaryDirectory(dir=os.path.join(here, "..", ".work")) as td:
             v = with_refs(c["j"], rng)
             if v is not None and not errors(v) and refs_well_founded(v):
                 docs.append(v)
+                if len(docs) % 3 == 0:
+                    docs.append(Spelled(v))
 r = check(docs)
 json.dump(r, open(a.out, "w"), indent=1)
